@@ -214,13 +214,52 @@ func addReflectIntrinsics(m map[string]intrinsicFn) {
 		return rv
 	}
 	m["(reflect.Value).CanSet"] = func(fr *frame, a []value) value {
+		rv := a[0].(rvalue)
+		return fr.p.tc.Bool(rv.addr != nil && !rv.ro)
+	}
+	m["(reflect.Value).CanAddr"] = func(fr *frame, a []value) value {
 		return fr.p.tc.Bool(a[0].(rvalue).addr != nil)
 	}
-	m["(reflect.Value).CanAddr"] = m["(reflect.Value).CanSet"]
+	m["(reflect.Value).NumField"] = func(fr *frame, a []value) value {
+		rv := a[0].(rvalue)
+		if rv.t == nil {
+			panic(runtimePanic{"reflect: call of reflect.Value.NumField on zero Value"})
+		}
+		st, ok := rv.t.Underlying().(*types.Struct)
+		if !ok {
+			panic(runtimePanic{"reflect: call of reflect.Value.NumField on " + typeString(rv.t) + " Value"})
+		}
+		return fr.p.intConst(int64(st.NumFields()))
+	}
+	m["(reflect.Value).Field"] = func(fr *frame, a []value) value {
+		rv := a[0].(rvalue)
+		if rv.t == nil {
+			panic(runtimePanic{"reflect: call of reflect.Value.Field on zero Value"})
+		}
+		st, ok := rv.t.Underlying().(*types.Struct)
+		if !ok {
+			panic(runtimePanic{"reflect: call of reflect.Value.Field on " + typeString(rv.t) + " Value"})
+		}
+		i := int(fr.p.concretize(a[1].(*Term), true, 0, int64(st.NumFields())))
+		if i < 0 || i >= st.NumFields() {
+			panic(runtimePanic{"reflect: Field index out of range"})
+		}
+		f := st.Field(i)
+		out := rvalue{t: f.Type(), ro: rv.ro || !f.Exported()}
+		if rv.addr != nil {
+			out.addr = &(*rv.addr).(structure)[i]
+		} else {
+			out.v = rv.v.(structure)[i]
+		}
+		return out
+	}
 	m["(reflect.Value).Set"] = func(fr *frame, a []value) value {
 		dst, src := a[0].(rvalue), a[1].(rvalue)
 		if dst.addr == nil {
 			panic(runtimePanic{"reflect: reflect.Value.Set using unaddressable value"})
+		}
+		if dst.ro || src.ro {
+			panic(runtimePanic{"reflect: reflect.Value.Set using value obtained using unexported field"})
 		}
 		if src.t == nil {
 			panic(runtimePanic{"reflect: call of reflect.Value.Set on zero Value"})
